@@ -317,6 +317,9 @@ func (op HeapOp) src() string {
 		return set(fmt.Sprintf("(reverse '%s %s)", op.Type, v(op.A)))
 	case "map-inc":
 		return set(fmt.Sprintf("(map '%s (lambda (x) %s) %s)", op.Type, fp("(+ x 1)"), v(op.A)))
+	case "map-rest":
+		// the callback keeps the &rest list it was called with
+		return set(fmt.Sprintf("(map '%s (lambda (&rest xs) xs) %s)", op.Type, v(op.A)))
 	case "select":
 		return set(fmt.Sprintf("(select '%s (lambda (x) %s) %s)", op.Type, fp(fmt.Sprintf("(> x %d)", op.I)), v(op.A)))
 	case "reject":
@@ -478,6 +481,8 @@ func (h *heap) valid(op HeapOp) bool {
 		return len(op.Elems) == 1 && ((a.k == hRef && a.obj.kind == oList) || a.k == hNil)
 	case "reverse":
 		return isSeqV(a)
+	case "map-rest":
+		return isSeqV(a) && !h.touchesUnknown(a)
 	case "map-inc", "select", "reject":
 		return isSeqV(a) && allInts(a.obj)
 	case "zip", "concat":
@@ -640,7 +645,7 @@ func (h *heap) outSize(op HeapOp) int {
 		return n(a) + len(op.Elems)
 	case "cons", "insert-index", "insert-sorted", "insert-sorted-len":
 		return n(a) + 1
-	case "reverse", "map-inc", "select", "reject", "sort", "sort-key", "sort-str", "sort-mod", "copy", "apply-rest", "apply-sort":
+	case "reverse", "map-inc", "map-rest", "select", "reject", "sort", "sort-key", "sort-str", "sort-mod", "copy", "apply-rest", "apply-sort":
 		return n(a)
 	case "funcall-rest":
 		return len(op.Elems)
@@ -765,6 +770,12 @@ func (h *heap) apply(op HeapOp, callbackFailed bool) {
 		cs := append([]hval(nil), src[:pos]...)
 		cs = append(cs, hint(op.I))
 		cs = append(cs, src[pos:]...)
+		res = newSeq(kind, cs)
+	case "map-rest":
+		var cs []hval
+		for _, e := range a.obj.cells() {
+			cs = append(cs, newSeq(oList, []hval{e}))
+		}
 		res = newSeq(kind, cs)
 	case "insert-sorted-len":
 		src := a.obj.cells()
@@ -995,7 +1006,7 @@ func (heapEngine) Gen(r *Rand, tier string) any {
 	}
 	kinds := []string{"list", "vector", "map", "bytes", "mkseq", "alias", "alias-via", "alias-via", "slice", "slice", "cdr", "rest", "append", "append", "cons", "reverse",
 		"map-inc", "select", "reject", "zip", "insert-index", "insert-sorted", "concat", "assoc", "dissoc", "keys", "nth", "get", "get-default", "get-default", "key?", "length",
-		"assoc!", "assoc!", "dissoc!", "append!", "append!", "append!", "append-bytes!", "append-bytes", "slice-bytes", "append!-bytes", "sort", "sort", "sort", "sort-key", "sort-str", "sort-str", "keys", "sort-mod", "sort-mod", "copy", "copy", "append-ts-bytes", "append-bytes-v!", "append-bytes-v!", "append-bytes-v", "apply-rest", "apply-rest", "apply-sort", "apply-sort", "funcall-rest", "insert-sorted-len", "insert-sorted-len", "insert-sorted-len"}
+		"assoc!", "assoc!", "dissoc!", "append!", "append!", "append!", "append-bytes!", "append-bytes", "slice-bytes", "append!-bytes", "sort", "sort", "sort", "sort-key", "sort-str", "sort-str", "keys", "sort-mod", "sort-mod", "copy", "copy", "append-ts-bytes", "append-bytes-v!", "append-bytes-v!", "append-bytes-v", "apply-rest", "apply-rest", "apply-sort", "apply-sort", "funcall-rest", "insert-sorted-len", "insert-sorted-len", "insert-sorted-len", "map-rest", "map-rest"}
 	var planned []HeapOp
 	for len(c.Ops) < n {
 		// repair: a backing left in unknown order is re-sorted next
@@ -1104,6 +1115,8 @@ func (heapEngine) Gen(r *Rand, tier string) any {
 					want(func(v hval) bool { return isKind(oList)(v) && v.obj.n >= 2 && allInts(v.obj) })
 				case "apply-rest":
 					want(isKind(oList))
+				case "map-rest":
+					want(func(v hval) bool { return isSeqV(v) && v.obj.n >= 2 })
 				case "slice", "rest", "reverse", "append", "nth", "concat", "zip", "insert-index", "copy":
 					want(isSeqV)
 				case "cdr", "cons":
